@@ -201,11 +201,13 @@ func checkHashAgainstCoeffs(bits []bool, c []float64, tau float64) *hashVerdict 
 		}
 	}
 	for i, v := range c {
-		if v >= um+tau && !bits[i] {
-			return &hashVerdict{"hash:upper-cleared", fmt.Sprintf("coefficient %d = %.9g is >= upper median %.9g + tau %.3g but its bit is clear", i, v, um, tau)}
+		// strict: a coefficient exactly at the median (ties, e.g. an all-black image whose
+		// coefficients are all 0) is at the threshold, and a threshold "at the median" clears it
+		if v > um+tau && !bits[i] {
+			return &hashVerdict{"hash:upper-cleared", fmt.Sprintf("coefficient %d = %.9g is above upper median %.9g + tau %.3g but its bit is clear", i, v, um, tau)}
 		}
-		if v <= lm-tau && bits[i] {
-			return &hashVerdict{"hash:lower-set", fmt.Sprintf("coefficient %d = %.9g is <= lower median %.9g - tau %.3g but its bit is set", i, v, lm, tau)}
+		if v < lm-tau && bits[i] {
+			return &hashVerdict{"hash:lower-set", fmt.Sprintf("coefficient %d = %.9g is below lower median %.9g - tau %.3g but its bit is set", i, v, lm, tau)}
 		}
 	}
 	if iClear >= 0 && iSet >= 0 && maxClear > minSet+2*tau {
